@@ -44,12 +44,12 @@ SPEC = PropSpec(
         "semiring belong to one algebra (linear: sum/prod/add/mul, log: logsumexp/sum/logaddexp/add) and forward dim / keepdim; every "
         "ordered pair of semirings has a registered morphism whose exp / log matches the two families; the stable reduce of a "
         "log-space semiring shifts every input by its own maximum over dim (keepdim=True), makes the shift finite before subtracting "
-        "(an all -inf row is log 0, not nan), adds the shifts back and drops the reduced axis when keepdim is False. R12b: every layer fuse rule of the optimiser (sum collapse, Tucker, CP) returns a layer that, interpreted on the same abstract input as the chain it replaces, has the same result shape, element order and parameter/data contraction pairing, and carries the compiler's semiring. R4l (element order): a Kronecker layer lists the units of input 0 major, and a sum layer contracts its weight columns against the inputs flattened arity major ([H, Ki]) -- the orders the mixing-weight parameter, the Tucker layer and sampling assume. R11d: stable exponentials shift by a maximum along an axis. R4g (one iteration of LayerAddressBook.lookup and TorchCircuit._evaluate_layers, interpreted on abstract address-book entries): an inner layer fed from one or two source modules with (F1|F2, B, K) outputs and a fold index (F, H) receives (F, H, B, K); an input layer with scope index (F, D) receives (F, B, D) of the (B, Dt) circuit input; the output entry stacks (O, B, K), returned as (B, O, K) -- '(batch, outputs, units)' -- or (O, K) for a circuit over no variables. R7i (compiler): TorchCompiler._compile_circuit wires every compiled layer to the images of its symbolic inputs, and collects the outputs, by order-preserving total maps over sc.layer_inputs(sl) / sc.outputs ('outputs in the declared order')."
+        "(an all -inf row is log 0, not nan), adds the shifts back and drops the reduced axis when keepdim is False. R12b: every layer fuse rule of the optimiser (sum collapse, Tucker, CP) returns a layer that, interpreted on the same abstract input as the chain it replaces, has the same result shape, element order and parameter/data contraction pairing, and carries the compiler's semiring. R4l (element order): a Kronecker layer lists the units of input 0 major, and a sum layer contracts its weight columns against the inputs flattened arity major ([H, Ki]) -- the orders the mixing-weight parameter, the Tucker layer and sampling assume. R11d: stable exponentials shift by a maximum along an axis. R4g (one iteration of LayerAddressBook.lookup and TorchCircuit._evaluate_layers, interpreted on abstract address-book entries): an inner layer fed from one or two source modules with (F1|F2, B, K) outputs and a fold index (F, H) receives (F, H, B, K); an input layer with scope index (F, D) receives (F, B, D) of the (B, Dt) circuit input; the output entry stacks (O, B, K), returned as (B, O, K) -- '(batch, outputs, units)' -- or (O, K) for a circuit over no variables. R7i (compiler): TorchCompiler._compile_circuit wires every compiled layer to the images of its symbolic inputs, and collects the outputs, by order-preserving total maps over sc.layer_inputs(sl) / sc.outputs ('outputs in the declared order'). R4u: forward of every inner layer reads all of its inputs."
     ),
     not_decided=(
         "numerical equality with the denoted function; the full tensor-shape contracts of the forward functions (shape "
         "interpreter of DESIGN 3.R4 not built); run-time address-book index arithmetic."
     ),
     run=run,
-    floors={"R7i": 2, "R4g": 6, "R11d": 2, "R4l": 2, "R12b": 7, "R1a": 38, "R1b": 38, "R1c": 170, "R1d": 10, "R4": 8, "R4b": 25, "R8": 12, "R11a": 12, "R11b": 12, "R11c": 10},
+    floors={"R4u": 10, "R7i": 2, "R4g": 6, "R11d": 2, "R4l": 2, "R12b": 7, "R1a": 38, "R1b": 38, "R1c": 170, "R1d": 10, "R4": 8, "R4b": 25, "R8": 12, "R11a": 12, "R11b": 12, "R11c": 10},
 )
